@@ -7,6 +7,8 @@ package harness
 // that did happen (an oversize message delivered; a connection closed on a message within the limit).
 
 import (
+	"bytes"
+	"context"
 	"crypto/tls"
 	"encoding/json"
 	"fmt"
@@ -16,6 +18,7 @@ import (
 	"sync"
 	"testing"
 	"time"
+	"verif/harness/refcodec"
 
 	eio "github.com/karagenc/socket.io-go/engine.io"
 	"github.com/karagenc/socket.io-go/engine.io/parser"
@@ -127,6 +130,62 @@ func evalC13w(c c13wCase) (f *Failure, nontrivial bool) {
 		ccfg.Transports = []string{"webtransport"}
 	} else {
 		ccfg.Transports = []string{"polling", "webtransport"}
+	}
+	if c.Path == "raw-open" {
+		// a hand-written WebTransport client whose very first frame - the OPEN packet, valid JSON padded with blanks - has the drawn size
+		limit := c.Limit
+		if limit == 0 {
+			limit = 1e6
+		} else if limit < 0 {
+			limit = 0
+		}
+		d := &webtransport.Dialer{TLSClientConfig: insecure}
+		var sess *webtransport.Session
+		for attempt := 0; attempt < 20 && sess == nil; attempt++ {
+			ctx, cancel := context.WithTimeout(context.Background(), 3*time.Second)
+			_, sess, err = d.Dial(ctx, ts.URL, nil)
+			cancel()
+			if err != nil {
+				if envStr("VERIF_DEBUG_WT", "") != "" {
+					fmt.Println("raw-open dial:", err)
+				}
+				sess = nil
+				time.Sleep(100 * time.Millisecond)
+			}
+		}
+		if sess == nil {
+			c13wInconclusive++
+			return nil, false
+		}
+		defer sess.CloseWithError(0, "")
+		str, err := sess.OpenStream()
+		if err != nil {
+			c13wInconclusive++
+			return nil, false
+		}
+		data := bytes.Repeat([]byte{' '}, max(c.Size, 2))
+		data[0], data[len(data)-1] = '{', '}'
+		go func() { _, _ = str.Write(refcodec.EncodeWTFrame(refcodec.EIOPacket{Type: 0, Data: data})) }()
+		packetLen := int64(len(data)) + 1
+		admitted := false
+		deadline := time.Now().Add(3 * time.Second)
+		for time.Now().Before(deadline) && !admitted {
+			mu.Lock()
+			admitted = srv != nil
+			mu.Unlock()
+			time.Sleep(5 * time.Millisecond)
+		}
+		if envStr("VERIF_DEBUG_WT", "") != "" {
+			fmt.Printf("raw-open: size %d limit %d admitted %v closes %v\n", packetLen, limit, admitted, closesS)
+		}
+		switch {
+		case limit > 0 && packetLen > limit+1 && admitted:
+			return fail("oversize-never-accepted", fmt.Sprintf("a WebTransport client whose first frame (the OPEN packet) is %d bytes long was admitted: a session was created although MaxBufferSize is %d", packetLen, limit)), true
+		case (limit == 0 || packetLen <= limit) && !admitted:
+			c13wInconclusive++ // no session within 3 s of real time: not a verdict
+			return nil, false
+		}
+		return nil, true
 	}
 	var cl eio.ClientSocket
 	for attempt := 0; attempt < 20 && cl == nil; attempt++ { // the UDP listener may need a moment
@@ -256,13 +315,13 @@ func evalC13w(c c13wCase) (f *Failure, nontrivial bool) {
 
 func TestC13_WebTransport(t *testing.T) {
 	ev := NewEv(t, "C13", c13wCheck, "real WebTransport (QUIC over UDP loopback, real clock), real client and server: MaxBufferSize in {100, 40000, default, disabled} x {directly over WebTransport, after a polling -> "+
-		"WebTransport upgrade} x {client -> server, server -> client} x sizes limit +- 12, limit/2, 2 x limit, 64 KiB +- 12 (the 16/64-bit length forms), text and binary, 0..2 small messages first; oracle on events "+
+		"WebTransport upgrade, a hand-written client whose first frame (the OPEN packet, padded JSON) has the drawn size} x {client -> server, server -> client} x sizes limit +- 12, limit/2, 2 x limit, 64 KiB +- 12 (the 16/64-bit length forms), text and binary, 0..2 small messages first; oracle on events "+
 		"only: a message within the limit must not get the connection closed, a message more than one byte beyond it must not be delivered; waiting out 10 s without any event is inconclusive and counted; "+
 		"non-trivial = a case that ended in an event")
 	rapidGuard(t, "C13", c13wCheck)
 	defer func() { ev.Set("inconclusive_no_event_within_10s", c13wInconclusive) }()
 	runRapid(t, c13wCheck, tierN(48, 640), func(t *rapid.T) {
-		c := c13wCase{Limit: rapid.SampledFrom([]int64{100, 40000, 0, -1}).Draw(t, "limit"), Path: rapid.SampledFrom([]string{"direct", "direct", "upgraded"}).Draw(t, "path"),
+		c := c13wCase{Limit: rapid.SampledFrom([]int64{100, 40000, 0, -1}).Draw(t, "limit"), Path: rapid.SampledFrom([]string{"direct", "direct", "upgraded", "raw-open"}).Draw(t, "path"),
 			Dir: rapid.SampledFrom([]string{"c2s", "c2s", "s2c"}).Draw(t, "dir"), Binary: rapid.Bool().Draw(t, "binary"), Before: rapid.IntRange(0, 2).Draw(t, "before")}
 		lim := c.Limit
 		if lim <= 0 {
@@ -277,6 +336,9 @@ func TestC13_WebTransport(t *testing.T) {
 			size = 2_200_000
 		}
 		c.Size = int(size)
+		if c.Path == "raw-open" {
+			c.Dir, c.Before = "c2s", 0
+		}
 		if c.Dir == "s2c" && c.Limit >= 0 && int64(c.Size)+1 > lim {
 			c.Size = int(lim) - 2
 		}
